@@ -135,7 +135,9 @@ func c14rBody(w *c14rWorld, startAt int64, ap [2]string, attestDur, subDelay int
 		standardsubscriber.WithProcessConcurrency(2), standardsubscriber.WithChainTimeService(ct), standardsubscriber.WithAttesterDutiesProvider(c14rSlowDuties{w}),
 		standardsubscriber.WithAttestationAggregator(w), standardsubscriber.WithBeaconCommitteeSubmitter(w))
 	must(err)
+	w.fastTrack = mc.Choose(2) == 1
 	_, err = standardcontroller.New(ctx,
+		standardcontroller.WithFastTrackAttestations(w.fastTrack), standardcontroller.WithFastTrackSyncCommittees(w.fastTrack), standardcontroller.WithFastTrackGrace(c03Grace),
 		standardcontroller.WithLogLevel(zerolog.Disabled), standardcontroller.WithMonitor(nullmetrics.New()),
 		standardcontroller.WithSpecProvider(&specProvider{m: baseSpec(c03SlotDur, c03SPE)}), standardcontroller.WithChainTimeService(ct),
 		standardcontroller.WithProposerDutiesProvider(w), standardcontroller.WithAttesterDutiesProvider(w),
@@ -370,5 +372,5 @@ func init() {
 		}
 		return units
 	}
-	p.Rule += "; (reorg) the real controller + scheduler + subscriber run for three epochs with a head event announcing changed dependent roots in one of the next five slots (1 s or 6 s into the slot, previous or current root) and duty tables that move, drop or add duties: every duty handed out for a future slot is subscribed, and every attestation is followed by one aggregation per committee with a selected aggregator (validators 1 and 3 are selected, 2 is not) at slot start + aggregation delay; the same from the first epoch of the chain (epoch 0); the same with an attester that takes 7 s and a beacon node that takes 10 / 20 / 40 s over the subscriber's duty request: an aggregation is owed whenever the subscription information reached the controller before the attestations were made"
+	p.Rule += "; (reorg) the real controller (fast track off / on) + scheduler + subscriber run for three epochs with a head event announcing changed dependent roots in one of the next five slots (1 s or 6 s into the slot, previous or current root) and duty tables that move, drop or add duties: every duty handed out for a future slot is subscribed, and every attestation is followed by one aggregation per committee with a selected aggregator (validators 1 and 3 are selected, 2 is not) at slot start + aggregation delay; the same from the first epoch of the chain (epoch 0); the same with an attester that takes 7 s and a beacon node that takes 10 / 20 / 40 s over the subscriber's duty request: an aggregation is owed whenever the subscription information reached the controller before the attestations were made"
 }
